@@ -24,7 +24,7 @@ var allowedStd = map[string]bool{
 	"io": true, "bufio": true, "internal/itoa": true, "internal/stringslite": true, "cmp": true,
 	"github.com/dim13/cobs": true, "github.com/kjx98/crc16": true, "internal/byteorder": true,
 	"container/list": true, "maps": true, "iter": true, "encoding/hex": true, "internal/bytealg": true,
-	"unicode/utf16": true, "hash/crc32": false,
+	"unicode/utf16": true, "hash/crc32": false, "golang.org/x/exp/slices": true, "golang.org/x/exp/constraints": true, "path": true,
 }
 
 type strList []string
